@@ -230,6 +230,9 @@ class _ExportSink(object):
             self.closed = True
             data = b"".join(self.buf)
             # ffmpeg -y overwrites the output path unconditionally
-            with open(self.path, "wb") as f:
-                f.write(b"FAKEVIDEO" + len(data).to_bytes(8, "big"))
+            fd = os.open(self.path, os.O_WRONLY | os.O_CREAT | os.O_TRUNC, 0o644)
+            try:
+                os.write(fd, b"FAKEVIDEO" + len(data).to_bytes(8, "big"))
+            finally:
+                os.close(fd)
             self.fake.exports.append((self.path, len(data)))
